@@ -1,51 +1,46 @@
-(* C03 — the single-voter election shortcut. Proved / refuted on DE.Membership (model of
-   Membership::is_single_node_cluster, RaftMembership::{new, voters, apply_config_change} and
-   ElectionHandler::broadcast_vote_requests). *)
+(* C03 — the single-voter election shortcut. Proved on DE.Membership, the model of the code as it is now
+   (Membership::is_single_node_cluster = initial_cluster_size == 1 && voters().is_empty(),
+   RaftMembership::{new, voters, apply_config_change}, ElectionHandler::broadcast_vote_requests).
+   The refutation of the variant before the fix is kept in proofs/C03hist.v. *)
 From Coq Require Import NArith List Bool Lia Arith.
 From DE Require Import Val BufLog LeaderCommit Membership proofs.C26.
 Import ListNotations.
 Open Scope N_scope.
-
-(* the decision the code takes is a function of the INITIAL configuration size only, whatever happened since *)
-Lemma is_single_run self init cs : is_single (run (mk self init) cs) = (N.of_nat (length init) =? 1).
-Proof. unfold is_single. rewrite run_init. reflexivity. Qed.
-
-Lemma shortcut_taken_iff_booted_alone self init cs rs :
-  (won (run (mk self init) cs) rs = true /\ asked (run (mk self init) cs) rs = false) <-> length init = 1%nat.
-Proof.
-  unfold won, asked, elect. rewrite is_single_run. split.
-  - destruct (N.eqb_spec (N.of_nat (length init)) 1) as [E|E]; [intros _; lia|].
-    destruct (voters (run (mk self init) cs)); cbn [nth]; intros [H1 H2]; cbn in H1, H2; discriminate.
-  - intros H. rewrite H. cbn. split; reflexivity.
-Qed.
-
-(* FULL STATEMENT (false on the code as it is, see shortcut_refuted):
-     forall self init cs rs, let m := run (mk self init) cs in
-       won m rs = true -> granted (length (voters m)) rs = 0 -> voters m = []. *)
-
-(* node 1 boots alone, two learners join and are promoted (the documented expansion), node 1 then wins an election
-   without a single vote although 2 and 3 are voting members *)
-Theorem shortcut_refuted :
-  exists (self : N) (init : list node) (cs : list change) (rs : list N),
-    (1 <= length init <= 5)%nat /\
-    let m := run (mk self init) cs in
-    won m rs = true /\ asked m rs = false /\ granted (length (voters m)) rs = 0 /\ voters m = [2; 3].
-Proof.
-  exists 1, [nf 1], [CAdd 2 S_PROMOTABLE; CAdd 3 S_PROMOTABLE; CBatchPromote [2; 3] S_ACTIVE], [0; 0].
-  split; [cbn; lia|]. vm_compute. repeat split; reflexivity.
-Qed.
 
 Lemma half_lt (t s : N) : t / 2 < s -> t < 2 * s.
 Proof.
   intros H. pose proof (N.mul_succ_div_gt t 2 ltac:(lia)) as G. nia.
 Qed.
 
-(* outside the class "booted as a single node and expanded since": a win takes granted votes of a strict majority of
-   the CURRENT voting members (self included), and a node with no other voter never gets there *)
-Theorem shortcut_sound_outside_known :
+(* when the shortcut is taken: booted as a single node AND no other voting member now *)
+Lemma is_single_run self init cs :
+  is_single (run (mk self init) cs) =
+  (N.of_nat (length init) =? 1) && match voters (run (mk self init) cs) with [] => true | _ => false end.
+Proof. unfold is_single. rewrite run_init. reflexivity. Qed.
+
+Theorem shortcut_taken_iff :
   forall (self : N) (init : list node) (cs : list change) (rs : list N),
     let m := run (mk self init) cs in
-    ~ (length init = 1%nat /\ voters m <> []) ->
+    (won m rs = true /\ asked m rs = false) <-> (length init = 1%nat /\ voters m = []).
+Proof.
+  intros self init cs rs. cbv zeta. set (m := run (mk self init) cs).
+  assert (S : is_single m = (N.of_nat (length init) =? 1) && match voters m with [] => true | _ => false end)
+    by apply is_single_run.
+  unfold won, asked, elect. rewrite S. split.
+  - destruct (N.eqb_spec (N.of_nat (length init)) 1) as [E|E]; cbn [andb].
+    + destruct (voters m) eqn:V; [intros _; split; [lia|reflexivity]|].
+      cbn [nth]. intros [_ H]. cbn in H. discriminate.
+    + destruct (voters m); cbn [nth]; intros [H1 H2]; cbn in H1, H2; discriminate.
+  - intros [L V]. rewrite L, V. cbn. split; reflexivity.
+Qed.
+
+(* THE FULL STATEMENT: over every history of AddNode / RemoveNode / Promote / BatchPromote / BatchRemove from every initial
+   configuration, at every election moment and for every pattern of answers: a win without a granted vote implies that the
+   current membership has no other voting member; with other voting members a win takes vote requests and granted votes of
+   a strict majority of the CURRENT voters (self included). *)
+Theorem shortcut_sound :
+  forall (self : N) (init : list node) (cs : list change) (rs : list N),
+    let m := run (mk self init) cs in
     won m rs = true ->
     (granted (length (voters m)) rs = 0 -> voters m = []) /\
     (voters m <> [] ->
@@ -53,24 +48,53 @@ Theorem shortcut_sound_outside_known :
        N.of_nat (length (vset m)) < 2 * (1 + granted (length (voters m)) rs)).
 Proof.
   intros self init cs rs. cbv zeta. set (m := run (mk self init) cs).
-  assert (S : is_single m = (N.of_nat (length init) =? 1)) by apply is_single_run.
-  intros Hk Hw. unfold won, asked, elect in *. rewrite S in *.
-  destruct (N.eqb_spec (N.of_nat (length init)) 1) as [E|E].
-  - assert (L : length init = 1%nat) by lia.
-    destruct (voters m) eqn:V; [split; [reflexivity|intros H; contradiction]|].
-    exfalso. apply Hk. split; [exact L|]. discriminate.
-  - unfold vset. destruct (voters m) as [|v vs] eqn:V; [cbn in Hw; discriminate|].
-    cbn [nth] in Hw |- *.
+  unfold won, asked, elect, is_single, vset. intros Hw.
+  destruct (voters m) as [|v vs] eqn:V.
+  - split; [reflexivity|intros H; contradiction].
+  - rewrite andb_false_r in Hw |- *. cbn [nth] in Hw |- *.
     destruct (N.ltb_spec ((N.of_nat (length (v :: vs)) + 1) / 2) (1 + granted (length (v :: vs)) rs)) as [Hlt|Hge];
       [|cbn in Hw; discriminate].
-    apply half_lt in Hlt. cbn [length] in *.
-    split.
+    apply half_lt in Hlt. cbn [length] in *. split.
     + intros G. rewrite G in Hlt. lia.
     + intros _. split; [reflexivity|]. split; lia.
 Qed.
 
-(* non-vacuity: a 3-node cluster, one vote granted, one refused: wins with 2 of 3 *)
+(* a node that started as a single-node cluster and was later expanded must win a real majority like any other *)
+Theorem expanded_single_node_needs_majority :
+  forall (init : list node) (self : N) (cs : list change) (rs : list N),
+    length init = 1%nat ->
+    let m := run (mk self init) cs in
+    voters m <> [] -> won m rs = true ->
+    asked m rs = true /\ N.of_nat (length (vset m)) < 2 * (1 + granted (length (voters m)) rs).
+Proof.
+  intros init self cs rs _. cbv zeta. intros Hv Hw.
+  destruct (shortcut_sound self init cs rs Hw) as [_ H]. destruct (H Hv) as [A [_ B]]. split; assumption.
+Qed.
+
+(* non-vacuity: the documented expansion 1 -> 3; no grant: loses (and asks); two grants: wins; never expanded: shortcut *)
+Example expansion_example :
+  let m := run (mk 1 [nf 1]) [CAdd 2 S_PROMOTABLE; CAdd 3 S_PROMOTABLE; CBatchPromote [2; 3] S_ACTIVE] in
+  voters m = [2; 3] /\ won m [0; 0] = false /\ asked m [0; 0] = true /\ won m [1; 0] = true /\
+  elect (mk 1 [nf 1]) [] = [1; 0; 0] /\
+  elect (run (mk 1 [nf 1]) [CAdd 2 S_PROMOTABLE]) [] = [1; 0; 0].
+Proof. vm_compute. repeat split; reflexivity. Qed.
+
 Example shortcut_sound_example :
   let m := run (mk 1 [nf 1; nf 2; nf 3]) [CAdd 4 S_PROMOTABLE] in
   won m [1; 0] = true /\ voters m = [2; 3] /\ granted 2 [1; 0] = 1 /\ won m [0; 0] = false.
 Proof. vm_compute. repeat split; reflexivity. Qed.
+
+(* RESIDUE (liveness, not this property): a node whose initial configuration had several nodes and whose membership shrank
+   to itself alone cannot take the shortcut (initial size <> 1) and has nobody to ask: it never wins. The statement of C03
+   only restricts WHEN the shortcut may be taken, so this is not a violation. *)
+Theorem shrunk_cluster_never_elects :
+  forall (self : N) (init : list node) (cs : list change) (rs : list N),
+    length init <> 1%nat -> voters (run (mk self init) cs) = [] -> won (run (mk self init) cs) rs = false.
+Proof.
+  intros self init cs rs L V. unfold won, elect. rewrite is_single_run, V.
+  destruct (N.eqb_spec (N.of_nat (length init)) 1) as [E|E]; [lia|]. reflexivity.
+Qed.
+Example shrunk_example :
+  voters (run (mk 1 [nf 1; nf 2; nf 3]) [CBatchRemove [2; 3]]) = [] /\
+  elect (run (mk 1 [nf 1; nf 2; nf 3]) [CBatchRemove [2; 3]]) [] = [0; 0; 0].
+Proof. vm_compute. split; reflexivity. Qed.
